@@ -339,14 +339,12 @@ class SeqText:
         return SeqText([self.chars[k]])
 
     def sx_int(self, base=None):
-        # int(text): the value of the decimal digits (symbolic); str() of it is not modelled -> the caller sees a number
-        v = 0
+        # int(text): only what can be done with the number of a digit text is modelled: str() of it (SeqInt)
         for c in self.chars:
             b = c.get('iso8859-1')
             if b is None or len(b) != 1:
                 raise ValueError('invalid literal for int()')
-            v = v * 10 + (b[0] - 48)
-        return v
+        return SeqInt(self.chars)
 
     def encode(self, encoding='utf-8', errors='strict'):
         name = codecs.lookup(encoding).name
@@ -357,6 +355,18 @@ class SeqText:
                 raise UnicodeEncodeError(name, '', 0, 1, 'scripted')
             out += b
         return SBytes(out)
+
+
+class SeqInt:
+    """int(digit text): str() gives the digits back without leading zeros (forks on symbolic leading digits)"""
+    def __init__(self, chars):
+        self.chars = chars
+
+    def sx_str(self):
+        k = 0
+        while k < len(self.chars) - 1 and bool(self.chars[k]['iso8859-1'][0] == 0x30):
+            k += 1
+        return SeqText(self.chars[k:])
 
 
 def cases_b(tier):
@@ -476,7 +486,8 @@ def job_b(res, L_, case):
     def to_input(m):
         d = {'fn': 'b', 'kind': case['kind'], 'kw': kw, 'data': list(common.bytes_from_model(m, want))}
         if chars is not None:
-            d['chars'] = [{k: (None if v is None else [m.eval(x.word(8), model_completion=True).as_long() for x in v]) for k, v in c.items()} for c in chars]
+            d['chars'] = [{k: (None if v is None else [x if isc(x) else m.eval(x.word(8), model_completion=True).as_long() for x in v]) for k, v in c.items()}
+                          for c in chars]
         return d
     if not any(p.status == 'ok' for p in paths):
         res.inconclusive.append(f'case refused on every path: {paths[0].value if paths else None}')
@@ -631,6 +642,8 @@ def replay(viol):
     kw = inp['kw']
     data = bytes(inp['data'])
     content = FakeSeqText(inp['chars']) if inp.get('chars') else data
+    if inp.get('chars') and all(set(map(tuple, (v or [] for v in c.values()))) == {(b,)} and b < 0x80 for c, b in zip(inp['chars'], data)) and len(inp['chars']) == len(data):
+        content = data.decode('ascii')      # plain ASCII text: every codec gives the same bytes, use a real str
     over = []
     real_e = enc._encode
 
